@@ -3,5 +3,7 @@ from loopsim import *
 
 
 def run(chk):
+    # verdict codes per actor; 1x = lifecycle-order rules (C01)
     return run_loop_check(chk, lambda n, links, t: f"codes {n} {t}", "mixed",
-                          "callbacks overlap or run out of lifecycle order")
+                          "callbacks overlap or run out of lifecycle order",
+                          accept=lambda o: isinstance(o, list) and not any(10 <= c < 20 for c in o))
